@@ -18,4 +18,8 @@ CONFIG="Net.setRouter,Router.setRouter,resolver.setParent,TBFQueueSizeInBytes,ne
 # one clones it first); ownership transfer is outside a lock discipline, so their fields are not audited (the race detector
 # workloads of the same check do cover them)
 MESSAGES="chunkIP,chunkUDP,chunkTCP"
+# the source importer of go/types runs cgo for package net and leaves its objects in the temporary directory: use one of our own
+TMPDIR=$(mktemp -d /tmp/raceaudit.XXXXXX)
+export TMPDIR
+trap 'rm -rf "$TMPDIR"' EXIT
 cd /repo && "$HERE/../../bin/raceaudit" -config "$CONFIG" -messages "$MESSAGES" -out "$OUT" packetio deadline dpipe udp vnet
